@@ -35,6 +35,12 @@ def establish_inv2(ctx, R, rule):
         L = T.mk_be((T.mk_at(h, I(14)), T.mk_at(h, I(15))))
         ok1 = solver.entails(o['pc'], T.eq0(T.sub(T.mk_len(h), T.add(I(16), L))))
         var = a[2] if a[0] == 'adt' else None
+        # the address value's kind is the image of the family nibble on the wire
+        inp = h[1] if h[0] == 'slice' else h
+        fam = T.bitop('band', T.mk_at(inp, I(13)), I(0xF0))
+        wire = [name for code, name in tables.FAMILIES.items() if solver.entails(o['pc'], T.eq0(T.sub(fam, I(code))))]
+        R.inst(rule, 'INV2/address-kind-is-the-wire-family', wire == [var], expected='addresses variant = family of (header[13] & 0xF0) = %s' % wire, found=str(var), entry=p)
+        allok = allok and wire == [var]
         ok2 = var in tables.FAMILY_SIZE and solver.entails(o['pc'], T.cmp('Ge', L, I(tables.FAMILY_SIZE[var])))
         n += 1
         R.inst(rule, 'INV2/len=16+L>=16+size', ok1 and ok2, expected='len(header) = 16 + be(header[14..16]) >= 16 + size(%s)' % var,
